@@ -5,13 +5,19 @@ Model (transliteration, core Lean only) of
   * config.mergeLists, config.normalizeList, Config.Merge (the `Checks` field),
     config.parseConfigs over an abstract directory walk, config.mergeConfigs, config.Load
   * the command-line merge of lintcmd/runner (`a.Package.Config.Merge(r.cfg)`)
-  * lintcmd.filterAnalyzerNames (with makeCaseFoldedString = ASCII lower-casing)
+  * lintcmd.filterAnalyzerNames (with makeCaseFoldedString = `lower`)
   * lintcmd.success, and the selection dependent part of linter.lint (U1000 gate)
   * the counting / exit-status part of lintcmd.(*Command).printDiagnostics
 
-Names are `List Char` (ASCII; `strings.ToLower` = `Char.toLower`, `unicode.IsNumber` =
-`Char.isDigit` on ASCII).  Go loops are folds; Go maps are association lists where the
-most recent binding of a key is the first one found.
+Names are `List Char` (Unicode code points; byte-wise slicing of the Go strings happens
+only at ASCII characters, so it agrees with slicing the code point list).
+`strings.ToLower` / `unicode.IsNumber` are modelled by `toLowerChar` / `isNumber`: ASCII
+plus explicit tables of the non-ASCII characters the generators draw from (numerals of
+the categories Nd, No, Nl; letters with one-to-one, many-to-one and ASCII-valued lower
+case mappings).  The check compares both functions with the Go library on every character
+of the alphabet on every run (hypothesis "the tables are the Go tables on the alphabet",
+probed).  Go loops are folds; Go maps are association lists where the most recent binding
+of a key is the first one found.
 -/
 namespace Verif.C11
 
@@ -88,7 +94,29 @@ def effective (dflt : Checks) (walk : List Level) (cmd : Checks) : Checks :=
 
 /-! ### selection -/
 
-def lower (s : Name) : Name := s.map Char.toLower
+/-- non-ASCII characters of the alphabet for which `unicode.IsNumber` holds:
+ARABIC-INDIC DIGIT THREE (Nd), SUPERSCRIPT TWO (No), VULGAR FRACTION ONE HALF (No), ROMAN
+NUMERAL EIGHT and SMALL ROMAN NUMERAL EIGHT (Nl), FULLWIDTH DIGIT FIVE (Nd), BENGALI DIGIT
+FOUR (Nd), IDEOGRAPHIC NUMBER ZERO (Nl). -/
+def numberTable : List Char :=
+  ['\u0663', '\u00b2', '\u00bd', '\u2167', '\u2177', '\uff15', '\u09ea', '\u3007']
+
+/-- `unicode.IsNumber` on the alphabet (ASCII and the tables). -/
+def isNumber (c : Char) : Bool := c.isDigit || numberTable.contains c
+
+/-- non-ASCII characters of the alphabet that `unicode.ToLower` changes: É Ä Σ, LATIN
+CAPITAL I WITH DOT ABOVE (→ ASCII i), KELVIN SIGN (→ ASCII k), the title case digraph
+U+01C5, ROMAN NUMERAL EIGHT (a numeral with a lower case), FULLWIDTH A, CAPITAL SHARP S. -/
+def lowerTable : List (Char × Char) :=
+  [('\u00c9', '\u00e9'), ('\u00c4', '\u00e4'), ('\u03a3', '\u03c3'), ('\u0130', 'i'),
+   ('\u212a', 'k'), ('\u01c5', '\u01c6'), ('\u2167', '\u2177'), ('\uff21', '\uff41'),
+   ('\u1e9e', '\u00df')]
+
+/-- `unicode.ToLower` on the alphabet. -/
+def toLowerChar (c : Char) : Char := (lowerTable.lookup c).getD c.toLower
+
+/-- `strings.ToLower` (rune-wise `unicode.ToLower`). -/
+def lower (s : Name) : Name := s.map toLowerChar
 
 /-- Go map from case folded check name to bool; newest binding first. -/
 abbrev AMap := List (Name × Bool)
@@ -98,11 +126,11 @@ def AMap.set (m : AMap) (k : Name) (b : Bool) : AMap := (k, b) :: m
 /-- `m[k]` (missing key reads as false). -/
 def AMap.get (m : AMap) (k : Name) : Bool := (m.lookup k).getD false
 
-def hasDigit (s : Name) : Bool := s.any Char.isDigit
+def hasDigit (s : Name) : Bool := s.any isNumber
 
 /-- `a.Slice(0, strings.IndexFunc(a, unicode.IsNumber))`; without a digit the index is
 -1 and `Slice(0, -1)` is the whole string. -/
-def catOf (a : Name) : Name := a.takeWhile (fun c => !c.isDigit)
+def catOf (a : Name) : Name := a.takeWhile (fun c => !isNumber c)
 
 /-- `if check.Length() > 1 && check.Index(0) == '-' { b = false; check = check.Slice(1, -1) }` -/
 def parseEntry (check : Name) : Bool × Name :=
